@@ -110,7 +110,9 @@ LEVEL_TEXT = ("Machine-checked theorems (Coq 8.16, closed under the global conte
               "= Ok (C10_no_spurious_reject; per level C10_level_accepted, per occurrence C10_occurrence_accepted; the matcher "
               "a level ends in reports its denotation: C10_final_matcher_reports).  No parser function occurs in a rule.  "
               "Converse: a rejected rendered line breaks a rule (C10_rejected_breaks_rule) and the kind says which side: if "
-              "(a)(b)(d)(h)(e) hold everywhere the error has a validator kind, i.e. names (c) (C10_rejection_names_relations).  "
+              "(a)(b)(d)(h)(e) hold everywhere the error has a validator kind, i.e. names (c) (C10_rejection_names_relations); "
+              "for one occurrence a count kind means not (a), ArgumentConflict a stored non-self-overriding Set-like argument "
+              "(not (d)), a value kind not (b), DisplayHelp/Version not (h) (C10_occurrence_rejection_names_rule).  "
               "On levels without groups rule (c) is decided by the validator's answer on the denotation's matcher "
               "(C10_relations_read, C10_reports_determine, C10_relations_rule_decide/_refute).  Non-vacuity "
               "(`prog --req A -n 300 -vv --mu a,b c -x F run --key=K`) and one necessity witness per rule (the named rule "
